@@ -286,3 +286,83 @@ package whispertool
 //@   invariant decoded: forall k :: 0 <= k && k < i ==> h.archiveInfoList[k].offset == be32(entry(src), 16 + 12 * k)
 //@                     && h.archiveInfoList[k].secondsPerPoint fmod 4294967296 == be32(entry(src), 20 + 12 * k)
 //@                     && h.archiveInfoList[k].numberOfPoints == be32(entry(src), 24 + 12 * k)
+
+//@ func (*TimeSeries).AppendTo
+//@   props C14
+//@   requires ts != nil
+//@   modifies dst[len(dst):cap(dst)]
+//@   ensures length: len(result) == len(dst) + 12 + 8 * len(ts.values)
+//@   ensures off: result.off == dst.off
+//@   ensures rest: forall j :: j < dst.off + len(dst) || j >= dst.off + len(dst) + 12 + 8 * len(ts.values) ==> at(result, j) == old(at(dst, j))
+//@   ensures enc_hdr: be32(result, len(dst)) == ts.fromTime && be32(result, len(dst) + 4) == ts.untilTime && be32(result, len(dst) + 8) == ts.step fmod 4294967296
+//@   ensures enc_vals: forall i :: 0 <= i && i < len(ts.values) ==> be64(result, len(dst) + 12 + 8 * i) == bits(ts.values[i])
+//@   ensures alias: fresh(result) || result === dst[0:len(dst) + 12 + 8 * len(ts.values)]
+//@ loop (*TimeSeries).AppendTo#0
+//@   invariant bounds: 0 <= i && i <= len(ts.values)
+//@   invariant length: len(dst) == len(entry(dst)) + 12 + 8 * i
+//@   invariant off: dst.off == entry(dst).off
+//@   invariant rest: forall j :: j < entry(dst).off + len(entry(dst)) || j >= entry(dst).off + len(entry(dst)) + 12 + 8 * i ==> at(dst, j) == old(at(entry(dst), j))
+//@   invariant hdr: be32(dst, len(entry(dst))) == ts.fromTime && be32(dst, len(entry(dst)) + 4) == ts.untilTime && be32(dst, len(entry(dst)) + 8) == ts.step fmod 4294967296
+//@   invariant vals: forall k :: 0 <= k && k < i ==> be64(dst, len(entry(dst)) + 12 + 8 * k) == bits(ts.values[k])
+//@   invariant alias: dst.arr > old(top) || dst === entry(dst)[0:len(entry(dst)) + 12 + 8 * i]
+
+//@ spec tsCount(src []byte) int = (be32(src, 4) - be32(src, 0)) / be32(src, 8)
+
+//@ func (*TimeSeries).TakeFrom
+//@   props C14 C15
+//@   requires ts != nil
+//@   modifies *ts
+//@   allocates <= len(src)
+//@   ensures short_hdr: len(src) < 12 ==> iswl(result1) && wlsize(result1) == 12
+//@   ensures wl_asks_more: iswl(result1) ==> wlsize(result1) > len(src)
+//@   ensures hdr: len(src) >= 12 ==> ts.fromTime == be32(src, 0) && ts.untilTime == be32(src, 4) && ts.step fmod 4294967296 == be32(src, 8)
+//@   ensures badshape: len(src) >= 12 && (be32(src, 8) == 0 || be32(src, 8) >= 2147483648 || be32(src, 4) < be32(src, 0)) ==> result1 != nil && !iswl(result1)
+//@   ensures short_vals: len(src) >= 12 && 0 < be32(src, 8) && be32(src, 8) < 2147483648 && be32(src, 0) <= be32(src, 4) && len(src) < 12 + 8 * tsCount(src)
+//@                 ==> iswl(result1) && wlsize(result1) == 12 + 8 * tsCount(src)
+//@   ensures ok: len(src) >= 12 && 0 < be32(src, 8) && be32(src, 8) < 2147483648 && be32(src, 0) <= be32(src, 4) && len(src) >= 12 + 8 * tsCount(src)
+//@                 ==> result1 == nil && len(ts.values) == tsCount(src) && result0 === src[12 + 8 * tsCount(src):]
+//@                 && (forall k :: 0 <= k && k < tsCount(src) ==> bits(ts.values[k]) == be64(src, 12 + 8 * k))
+//@ loop (*TimeSeries).TakeFrom#0
+//@   invariant bounds: 0 <= i && i <= n && n == len(ts.values) && n == tsCount(entry(src))
+//@   invariant enough: len(entry(src)) >= 12 + 8 * n
+//@   invariant hdr: ts.fromTime == be32(entry(src), 0) && ts.untilTime == be32(entry(src), 4) && ts.step fmod 4294967296 == be32(entry(src), 8)
+//@   invariant progress: src === entry(src)[12 + 8 * i:]
+//@   invariant decoded: forall k :: 0 <= k && k < i ==> bits(ts.values[k]) == be64(entry(src), 12 + 8 * k)
+
+//@ func (*Points).AppendTo
+//@   props C14
+//@   requires pp != nil
+//@   modifies dst[len(dst):cap(dst)]
+//@   ensures length: len(result) == len(dst) + 8 + 12 * len(*pp)
+//@   ensures off: result.off == dst.off
+//@   ensures rest: forall j :: j < dst.off + len(dst) || j >= dst.off + len(dst) + 8 + 12 * len(*pp) ==> at(result, j) == old(at(dst, j))
+//@   ensures enc_count: be64(result, len(dst)) == len(*pp)
+//@   ensures enc_points: forall i :: 0 <= i && i < len(*pp) ==> be32(result, len(dst) + 8 + 12 * i) == (*pp)[i].Time
+//@                 && be64(result, len(dst) + 12 + 12 * i) == bits((*pp)[i].Value)
+//@   ensures alias: fresh(result) || result === dst[0:len(dst) + 8 + 12 * len(*pp)]
+//@ loop (*Points).AppendTo#0
+//@   invariant bounds: 0 <= i && i <= len(*pp)
+//@   invariant length: len(dst) == len(entry(dst)) + 8 + 12 * i
+//@   invariant off: dst.off == entry(dst).off
+//@   invariant rest: forall j :: j < entry(dst).off + len(entry(dst)) || j >= entry(dst).off + len(entry(dst)) + 8 + 12 * i ==> at(dst, j) == old(at(entry(dst), j))
+//@   invariant count: be64(dst, len(entry(dst))) == len(*pp)
+//@   invariant points: forall k :: 0 <= k && k < i ==> be32(dst, len(entry(dst)) + 8 + 12 * k) == (*pp)[k].Time
+//@                 && be64(dst, len(entry(dst)) + 12 + 12 * k) == bits((*pp)[k].Value)
+//@   invariant alias: dst.arr > old(top) || dst === entry(dst)[0:len(entry(dst)) + 8 + 12 * i]
+
+//@ func (*Points).TakeFrom
+//@   props C14 C15
+//@   requires pp != nil
+//@   modifies *pp
+//@   allocates <= 2 * len(src)
+//@   ensures short_hdr: len(src) < 8 ==> iswl(result1) && wlsize(result1) == 8
+//@   ensures wl_asks_more: iswl(result1) ==> wlsize(result1) > len(src)
+//@   ensures short_points: len(src) >= 8 && be64(src, 0) <= 768614336404564649 && len(src) < 8 + 12 * be64(src, 0) ==> iswl(result1) && wlsize(result1) == 8 + 12 * be64(src, 0)
+//@   ensures ok: len(src) >= 8 && len(src) >= 8 + 12 * be64(src, 0) ==> result1 == nil && len(*pp) == be64(src, 0) && result0 === src[8 + 12 * be64(src, 0):]
+//@                 && (forall k :: 0 <= k && k < be64(src, 0) ==> (*pp)[k].Time == be32(src, 8 + 12 * k) && bits((*pp)[k].Value) == be64(src, 12 + 12 * k))
+//@   ensures huge: len(src) >= 8 && be64(src, 0) > 768614336404564649 ==> result1 != nil
+//@ loop (*Points).TakeFrom#0
+//@   invariant bounds: 0 <= i && i <= count && count == len(*pp) && count == be64(entry(src), 0)
+//@   invariant enough: len(entry(src)) >= 8 + 12 * count
+//@   invariant progress: src === entry(src)[8 + 12 * i:]
+//@   invariant decoded: forall k :: 0 <= k && k < i ==> (*pp)[k].Time == be32(entry(src), 8 + 12 * k) && bits((*pp)[k].Value) == be64(entry(src), 12 + 12 * k)
